@@ -46,7 +46,18 @@ def compare(op, impl, model):
     kind = op.split(" ", 1)[0]
     if impl == model:
         return True
-    if impl == "err" or model == "err" or model in ("bad-op", "<missing>") or impl == "<missing>":
+    if model in ("bad-op", "<missing>") or impl == "<missing>":
+        return False
+    # Classes of the two known findings: the model transcribes the behaviour of the code as it is and ALSO gives (after " | ")
+    # the behaviour the property demands, so that a repaired library still corresponds (the oracle, not the correspondence,
+    # reports the defect while it exists).
+    if kind in ("irfft", "dftf") and model.startswith("err | "):
+        if impl == "err":
+            return True
+        model = model[len("err | "):]
+    if kind in ("conv2", "conv3") and " | " in model:
+        return any(compare(op, impl, m) for m in model.split(" | "))
+    if impl == "err" or model == "err":
         return False
     try:
         t = op.split()
